@@ -119,8 +119,13 @@ static void prop(Tape &t, Ctx &c) {
             deliver(u);
             if (t.u8() & 1 && !pending.empty()) { /* also deliver the original afterwards */ }
         } else if (op < 235) {                // raw bytes
-            size_t n = t.u8(); if (op & 1) n += 200; Bytes u = t.vec(n); raw++;
-            if ((op & 2) && n >= 5) { u[0] = (uint8_t) (20 + u[0] % 5); u[1] = dt ? 0xfe : 3; u[2] = dt ? 0xfd : 3; if (!dt) { size_t L = n - 5; u[3] = (uint8_t) (L >> 8); u[4] = (uint8_t) L; } else if (n >= 13) { size_t L = n - 13; u[11] = (uint8_t) (L >> 8); u[12] = (uint8_t) L; } }
+            size_t n = t.u8(); if (op & 1) n += 200;
+            // short records with a well-formed header whose body length sits on a block / MAC / nonce / tag boundary (what the length sanity
+            // tests in front of the CBC and AEAD decryption have to get right once a read cipher is active)
+            bool boundary = (op & 4) != 0; if (boundary) { static const int BL[] = { 0, 1, 7, 8, 9, 15, 16, 17, 20, 21, 23, 24, 25, 31, 32, 33, 36, 37, 40, 47, 48, 49, 52, 53, 63, 64, 65, 80 }; n = (dt ? 13 : 5) + (size_t) BL[t.u8() % (sizeof BL / sizeof BL[0])]; c.count("raw-boundary-length-record"); }
+            Bytes u = t.vec(n); raw++;
+            if (dt && boundary && n >= 13) { u[3] = 0; u[4] = V.hs_complete() ? 1 : 0; u[5] = u[6] = u[7] = 0; }   // current epoch, else DTLS drops the record unread
+            if (((op & 2) || boundary) && n >= 5) { u[0] = (uint8_t) (20 + u[0] % 5); u[1] = dt ? 0xfe : 3; u[2] = dt ? 0xfd : 3; if (!dt) { size_t L = n - 5; u[3] = (uint8_t) (L >> 8); u[4] = (uint8_t) L; } else if (n >= 13) { size_t L = n - 13; u[11] = (uint8_t) (L >> 8); u[12] = (uint8_t) L; } }
             deliver(u);
         } else if (op < 245) {                // application calls on the victim
             uint8_t k = t.u8();
